@@ -246,6 +246,10 @@ func ruleFieldCorrespondenceFor(c *Ctx, pf *parserFacts, leaves map[*types.Var]s
 					bad = fmt.Sprintf("is computed from %q", k)
 				}
 			}
+			if dest == "Analog.Bidirectional" && bad == "" && len(data) > 0 && pf.litContext(fs.Lit) != "action" {
+				// (for actions the zero value "" is not an accepted action - R10.3 - so value and presence coincide)
+				bad = fmt.Sprintf("is computed from the VALUE of %v; the PRESENCE of the negative field in the file (a nil test of the optional pointer) must decide it, otherwise a stated `..._negative = 0` is silently dropped", setKeys(data))
+			}
 			must, hasMust := fieldMustSource[dest]
 			if !hasMust {
 				must = want[0]
